@@ -47,6 +47,18 @@ def make_case(text, gold, family):
     def impl():
         r = call_impl(ev.summary, list(text), list(gold))
         if r[0] == 'ok':
+            # the same summary built step by step on ONE SegmentationSummary object, exported after every
+            # utterance (and the exports left untouched afterwards): the last export is the summary of the whole
+            def stepwise():
+                s = ev.SegmentationSummary()
+                exports = []
+                for t, g in zip(text, gold):
+                    s.summarize_utterance(t, g)
+                    exports.append(s.to_dict())
+                return exports[-1] if exports else s.to_dict()
+            r2 = call_impl(stepwise)
+            if r2 != r:
+                return ('raise', 'AssertionError')      # reported by the oracle below
             return ('ok', [list(r[1][k].items()) for k in CATS])
         return r
 
@@ -54,6 +66,8 @@ def make_case(text, gold, family):
         return decode_result(w, lambda v: [[(''.join(map(chr, k)), c) for k, c in cat] for cat in v])
 
     def oracle(out):
+        if out == ('raise', 'AssertionError'):
+            return 'a SegmentationSummary fed utterance by utterance and exported after each one ends with another summary than summary(text, gold)'
         if out[0] != 'ok':
             return 'consistent pair raised ' + out[1]
         ref = reference_summary(text, gold)
